@@ -1,6 +1,6 @@
 (* C03 -- the n-dimensional (Levy copula) coupling: F-C03-1, refutation witness evaluated by vm_compute. *)
 From Coq Require Import ZArith QArith Qabs List Bool Lia Lqa.
-From RV Require Import Base.QB Model.Grid Gen.GenC01Trunc Model.Chain Model.CouplingNd.
+From RV Require Import Base.QB Model.Grid Gen.GenC01Trunc Model.Chain Model.CouplingNd Proofs.C13_Grid Proofs.C01_Chain.
 Import ListNotations.
 Open Scope Q_scope.
 
@@ -29,3 +29,177 @@ Theorem telescoping_nd_joint_instance :
      Qeq_bool (inflow2_joint ps (refine_axis amid xs) (2 * o) (2 * j1) (2 * j2)) (q_entry2 amid (step_mass2 ps) xs xs o j1 j2))
      (seq 0 (length xs))) (seq 0 (length xs)) = true.
 Proof. vm_compute. reflexivity. Qed.
+
+(* ================= positive structural theorems about the faithful 2-d model (they hold of the current code) ========= *)
+Section NdStructure.
+  Variable mid : Q -> Q -> Q.
+  Variable mass2 : Q * Q -> Q * Q -> Q.
+  Variable marg : nat -> Q -> Q -> Q.
+
+  (* copy rule: a fine increment with both coordinates even (a coarse-grid state) is returned unchanged, for every uniform *)
+  Theorem copy_rule_2d xs o i1 i2 u : (i1 mod 2 = 0)%Z -> (i2 mod 2 = 0)%Z ->
+    coupling_state2 mid mass2 marg xs o i1 i2 u
+    = Some (nthq xs (Z.to_nat (Z.of_nat o + i1)), nthq xs (Z.to_nat (Z.of_nat o + i2))).
+  Proof. intros E1 E2. unfold coupling_state2. rewrite E1, E2. reflexivity. Qed.
+
+  (* adjacency: whatever the uniform, an even coordinate is kept and an odd coordinate moves to one of its two neighbours
+     on the fine axis (which are coarse-grid states because the origin index of the refined grid is even) *)
+  Theorem adjacency_2d xs o i1 i2 u v1 v2 :
+    coupling_state2 mid mass2 marg xs o i1 i2 u = Some (v1, v2) ->
+    let p1 := Z.to_nat (Z.of_nat o + i1) in let p2 := Z.to_nat (Z.of_nat o + i2) in
+    ((i1 mod 2 = 0)%Z -> v1 = nthq xs p1) /\ ((i1 mod 2 <> 0)%Z -> v1 = nthq xs (p1 - 1) \/ v1 = nthq xs (p1 + 1))
+    /\ ((i2 mod 2 = 0)%Z -> v2 = nthq xs p2) /\ ((i2 mod 2 <> 0)%Z -> v2 = nthq xs (p2 - 1) \/ v2 = nthq xs (p2 + 1)).
+  Proof.
+    unfold coupling_state2. cbv zeta.
+    set (p1 := Z.to_nat (Z.of_nat o + i1)). set (p2 := Z.to_nat (Z.of_nat o + i2)).
+    destruct (Z.eqb_spec (i1 mod 2) 0) as [E1|E1]; destruct (Z.eqb_spec (i2 mod 2) 0) as [E2|E2].
+    - intros H; injection H as <- <-. repeat split; intros; try reflexivity; contradiction.
+    - destruct (corner1 mid marg 1 xs p2) as [[pl pr]|]; [|discriminate].
+      destruct (Qle_bool u (0 + pl)); [|destruct (Qle_bool u (0 + pl + pr)); [|discriminate]];
+        intros H; injection H as <- <-; repeat split; intros; try reflexivity; try contradiction; tauto.
+    - destruct (corner1 mid marg 0 xs p1) as [[pl pr]|]; [|discriminate].
+      destruct (Qle_bool u (0 + pl)); [|destruct (Qle_bool u (0 + pl + pr)); [|discriminate]];
+        intros H; injection H as <- <-; repeat split; intros; try reflexivity; try contradiction; tauto.
+    - destruct (corner2 mid mass2 xs p1 p2) as [cs|]; [|discriminate].
+      destruct (first_corner u 0 cs) as [[d1 d2]|]; [|discriminate].
+      intros H; injection H as <- <-. unfold step_idx.
+      repeat split; intros; try contradiction; destruct d1, d2; tauto.
+  Qed.
+End NdStructure.
+
+Lemma amid_comm x y : amid x y == amid y x.
+Proof. unfold amid. lra. Qed.
+
+Section NdCorners.
+  (* margins over one axis and the joint rectangle mass: additive / non-negative away from the origin *)
+  Variable marg : nat -> Q -> Q -> Q.
+  Hypothesis marg_add : forall k a b c, a <= b -> b <= c -> (c < 0 \/ 0 < a) -> marg k a c == marg k a b + marg k b c.
+  Hypothesis marg_pos : forall k a b, a <= b -> (b < 0 \/ 0 < a) -> 0 <= marg k a b.
+  Hypothesis marg_proper : forall k a a' b b', a == a' -> b == b' -> marg k a b == marg k a' b'.
+
+  Lemma half_left xs p : incr xs -> (1 <= p)%nat -> (p < length xs)%nat ->
+    fst (half amid xs p false) == cell_lo amid xs p /\ snd (half amid xs p false) == nthq xs p /\ cell_lo amid xs p < nthq xs p.
+  Proof.
+    intros Hi H1 Hp. unfold half, cell_lo. rewrite left_point_inner by exact H1. cbv zeta.
+    assert (L : nthq xs (p - 1) < nthq xs p).
+    { replace p with (p - 1 + 1)%nat at 2 by lia. apply incr_nth_succ; [exact Hi|lia]. }
+    destruct (amid_between _ _ L) as [A B]. cbn [fst snd]. qcases; repeat split; lra.
+  Qed.
+  Lemma half_right xs p : incr xs -> (p + 1 < length xs)%nat ->
+    fst (half amid xs p true) == nthq xs p /\ snd (half amid xs p true) == cell_hi amid xs p /\ nthq xs p < cell_hi amid xs p.
+  Proof.
+    intros Hi Hp. unfold half, cell_hi. rewrite right_point_inner by exact Hp. cbv zeta.
+    assert (L : nthq xs p < nthq xs (p + 1)) by (apply incr_nth_succ; [exact Hi|lia]).
+    destruct (amid_between _ _ L) as [A B]. pose proof (amid_comm (nthq xs (p + 1)) (nthq xs p)) as C.
+    cbn [fst snd]. qcases; repeat split; lra.
+  Qed.
+
+  (* one odd axis: the two corner probabilities are probabilities and sum to 1 whenever the margin mass of the cell is not 0 *)
+  Theorem corner1_is_law k xs p pl pr : incr xs -> (1 <= p)%nat -> (p + 1 < length xs)%nat ->
+    (cell_hi amid xs p < 0 \/ 0 < cell_lo amid xs p) ->
+    corner1 amid marg k xs p = Some (pl, pr) -> 0 <= pl /\ 0 <= pr /\ pl + pr == 1.
+  Proof.
+    intros Hi H1 Hp Hs. unfold corner1.
+    destruct (half_left xs p Hi H1 ltac:(lia)) as (L1 & L2 & L3). destruct (half_right xs p Hi Hp) as (R1 & R2 & R3).
+    set (T := marg k (cell_lo amid xs p) (cell_hi amid xs p)).
+    destruct (Qeq_bool T 0) eqn:E; [discriminate|]. apply Qeq_bool_neq in E.
+    intros H; injection H as <- <-.
+    rewrite (marg_proper k _ _ _ _ L1 L2), (marg_proper k _ _ _ _ R1 R2).
+    set (A := marg k (cell_lo amid xs p) (nthq xs p)). set (B := marg k (nthq xs p) (cell_hi amid xs p)).
+    assert (TA : T == A + B) by (apply marg_add; try lra; exact Hs).
+    assert (PA : 0 <= A) by (apply marg_pos; [lra|destruct Hs; [left|right]; lra]).
+    assert (PB : 0 <= B) by (apply marg_pos; [lra|destruct Hs; [left|right]; lra]).
+    assert (TP : 0 < T) by (destruct (Qlt_le_dec 0 T); [assumption|exfalso; apply E; lra]).
+    split; [apply Qle_shift_div_l; lra|]. split; [apply Qle_shift_div_l; lra|].
+    rewrite TA. field. rewrite <- TA. exact E.
+  Qed.
+
+  Variable mass2 : Q * Q -> Q * Q -> Q.
+  Hypothesis mass2_add1 : forall a1 b1 c1 y1 y2, a1 <= b1 -> b1 <= c1 -> avoids (a1, y1) (c1, y2) ->
+    mass2 (a1, y1) (c1, y2) == mass2 (a1, y1) (b1, y2) + mass2 (b1, y1) (c1, y2).
+  Hypothesis mass2_add2 : forall x1 x2 a2 b2 c2, a2 <= b2 -> b2 <= c2 -> avoids (x1, a2) (x2, c2) ->
+    mass2 (x1, a2) (x2, c2) == mass2 (x1, a2) (x2, b2) + mass2 (x1, b2) (x2, c2).
+  Hypothesis mass2_pos : forall a b, fst a <= fst b -> snd a <= snd b -> avoids a b -> 0 <= mass2 a b.
+  Hypothesis mass2_proper : forall a1 a2 b1 b2 a1' a2' b1' b2', a1 == a1' -> a2 == a2' -> b1 == b1' -> b2 == b2' ->
+    mass2 (a1, a2) (b1, b2) == mass2 (a1', a2') (b1', b2').
+
+  (* both axes odd: the four corner probabilities (joint quarter masses) are probabilities and sum to 1 *)
+  Theorem corner2_is_law xs p1 p2 cs : incr xs -> (1 <= p1)%nat -> (p1 + 1 < length xs)%nat -> (1 <= p2)%nat -> (p2 + 1 < length xs)%nat ->
+    (cell_hi amid xs p1 < 0 \/ 0 < cell_lo amid xs p1) ->
+    corner2 amid mass2 xs p1 p2 = Some cs ->
+    Forall (fun c => 0 <= snd c) cs /\ qsum (map (fun c => snd c) cs) == 1.
+  Proof.
+    intros Hi H1 Hp1 H2 Hp2 Hs. unfold corner2.
+    destruct (half_left xs p1 Hi H1 ltac:(lia)) as (L1 & L2 & L3). destruct (half_right xs p1 Hi Hp1) as (R1 & R2 & R3).
+    destruct (half_left xs p2 Hi H2 ltac:(lia)) as (M1 & M2 & M3). destruct (half_right xs p2 Hi Hp2) as (S1 & S2 & S3).
+    set (lo1 := cell_lo amid xs p1) in *. set (hi1 := cell_hi amid xs p1) in *.
+    set (lo2 := cell_lo amid xs p2) in *. set (hi2 := cell_hi amid xs p2) in *.
+    set (x1 := nthq xs p1) in *. set (x2 := nthq xs p2) in *.
+    set (T := mass2 (lo1, lo2) (hi1, hi2)).
+    destruct (Qeq_bool T 0) eqn:E; [discriminate|]. apply Qeq_bool_neq in E.
+    intros H; injection H as <-. cbn [map fst snd]. unfold quarter.
+    set (q00 := mass2 (lo1, lo2) (x1, x2)). set (q01 := mass2 (lo1, x2) (x1, hi2)).
+    set (q10 := mass2 (x1, lo2) (hi1, x2)). set (q11 := mass2 (x1, x2) (hi1, hi2)).
+    assert (E00 := mass2_proper _ _ _ _ _ _ _ _ L1 M1 L2 M2). assert (E01 := mass2_proper _ _ _ _ _ _ _ _ L1 S1 L2 S2).
+    assert (E10 := mass2_proper _ _ _ _ _ _ _ _ R1 M1 R2 M2). assert (E11 := mass2_proper _ _ _ _ _ _ _ _ R1 S1 R2 S2).
+    fold q00 in E00. fold q01 in E01. fold q10 in E10. fold q11 in E11.
+    assert (AV : forall a2 b2 a1 b1, lo1 <= a1 -> b1 <= hi1 -> avoids (a1, a2) (b1, b2)).
+    { intros a2 b2 a1 b1 Ha Hb. unfold avoids; cbn [fst snd]. destruct Hs; [left|right; left]; lra. }
+    assert (TS : T == q00 + q01 + q10 + q11).
+    { unfold T. rewrite (mass2_add1 lo1 x1 hi1 lo2 hi2) by (try lra; apply AV; lra).
+      rewrite (mass2_add2 lo1 x1 lo2 x2 hi2) by (try lra; apply AV; lra).
+      rewrite (mass2_add2 x1 hi1 lo2 x2 hi2) by (try lra; apply AV; lra). unfold q00, q01, q10, q11. lra. }
+    assert (P00 : 0 <= q00) by (apply mass2_pos; cbn [fst snd]; try lra; apply AV; lra).
+    assert (P01 : 0 <= q01) by (apply mass2_pos; cbn [fst snd]; try lra; apply AV; lra).
+    assert (P10 : 0 <= q10) by (apply mass2_pos; cbn [fst snd]; try lra; apply AV; lra).
+    assert (P11 : 0 <= q11) by (apply mass2_pos; cbn [fst snd]; try lra; apply AV; lra).
+    assert (TP : 0 < T) by (destruct (Qlt_le_dec 0 T); [assumption|exfalso; apply E; lra]).
+    split.
+    - repeat constructor; cbn [snd]; [rewrite E00|rewrite E01|rewrite E10|rewrite E11]; apply Qle_shift_div_l; lra.
+    - unfold qsum. cbn [fold_right]. rewrite E00, E01, E10, E11, TS. field. rewrite <- TS. exact E.
+  Qed.
+End NdCorners.
+
+(* ---------- the level machine of the copula coupling: frozen drift vector and diffusion matrix *)
+Section LevelsNdProofs.
+  Variable mid : Q -> Q -> Q.
+  Variable dmat_of : grid -> list (list Q).
+  Variable driftv_of : grid -> list Q.
+  Variable x0 : list Q.
+
+  Lemma freeze_vec_eq d : length x0 = length d -> Forall2 Qeq (freeze_vec x0 d) d.
+  Proof.
+    unfold freeze_vec. revert d. induction x0 as [|x r IH]; intros [|y d] H; simpl in *; try discriminate; [constructor|].
+    constructor; [ring|]. apply IH. lia.
+  Qed.
+
+  Lemma run_levels_nd_fields n g :
+    cn_grid (run_levels_nd mid dmat_of driftv_of x0 n g) = refine_n mid n g
+    /\ cn_level (run_levels_nd mid dmat_of driftv_of x0 n g) = n
+    /\ cn_dm_fine (run_levels_nd mid dmat_of driftv_of x0 n g) = dmat_of (refine_n mid n g)
+    /\ cn_drift_fine (run_levels_nd mid dmat_of driftv_of x0 n g) = driftv_of (refine_n mid n g).
+  Proof.
+    induction n as [|n (I1 & I2 & I3 & I4)]; [repeat split|].
+    cbn [run_levels_nd refine_n]. unfold next_level_nd; cbn [cn_grid cn_level cn_dm_fine cn_drift_fine].
+    rewrite I1, I2. repeat split.
+  Qed.
+
+  (* after any number n+1 of next_level calls: the coarse diffusion matrix and the frozen coarse drift vector are the fine ones
+     of level n, i.e. those of the chain on the grid refined n times *)
+  Theorem frozen_nd n g : length x0 = length (driftv_of (refine_n mid n g)) ->
+    let s := run_levels_nd mid dmat_of driftv_of x0 (S n) g in
+    cn_level s = S n /\ cn_grid s = refine_n mid (S n) g
+    /\ cn_dm_coarse s = Some (dmat_of (refine_n mid n g))
+    /\ cn_dm_fine s = dmat_of (refine_n mid (S n) g)
+    /\ cn_drift_fine s = driftv_of (refine_n mid (S n) g)
+    /\ (exists d, cn_drift_coarse s = Some d /\ Forall2 Qeq d (driftv_of (refine_n mid n g))).
+  Proof.
+    intros HL. destruct (run_levels_nd_fields n g) as (I1 & I2 & I3 & I4).
+    destruct (run_levels_nd_fields (S n) g) as (J1 & J2 & J3 & J4).
+    cbv zeta. split; [exact J2|]. split; [exact J1|].
+    split; [cbn [run_levels_nd]; unfold next_level_nd; cbn [cn_dm_coarse]; rewrite I3; reflexivity|].
+    split; [exact J3|]. split; [exact J4|].
+    cbn [run_levels_nd]. unfold next_level_nd; cbn [cn_drift_coarse]. eexists. split; [reflexivity|].
+    rewrite I4. apply freeze_vec_eq. exact HL.
+  Qed.
+End LevelsNdProofs.
